@@ -131,8 +131,6 @@ Proof.
   intros [= <-]. split; [reflexivity|]. lia.
 Qed.
 
-Definition valid_dt (t : dt) : bool :=
-  let '(y, m, d, h, mi, s, us) := t in valid_date y m d && valid_time h mi s && (us =? 0).
 
 Lemma bind_ok {A B} (r : result A) (f : A -> result B) b :
   bind r f = Ok b -> exists a, r = Ok a /\ f a = Ok b.
